@@ -1,6 +1,8 @@
 import YncaVerif.Lemmas.AcceptSound
 import YncaVerif.Lemmas.C08
 import YncaVerif.Lemmas.C15
+import YncaVerif.Lemmas.C12
+import YncaVerif.Lemmas.C01
 /-! Projection of an explained trace onto the model's ghost history: what the acceptor's verdict implies about the
 OBSERVED events themselves (times and texts of writes, number of disconnect-callback invocations). -/
 namespace Ynca.L4
@@ -119,5 +121,102 @@ theorem Expl.discs {P : Params} {hidden : List String} {pre : List (Nat × Ev)} 
     exact absurd ho hv
   | snapshot _ _ ih => rw [← ih, traceDiscs_append]; simp [traceDiscs]
   | stop _ ih => rw [← ih, traceDiscs_append]; simp [traceDiscs]
+
+end Ynca.L4
+
+/-! ### C01 on the observed trace: every written line is the probe or the unchanged text of an earlier call -/
+namespace Ynca.L4
+open Ynca.L4.C12L
+
+/-- command texts handed to put / get / raw, in the order the calls began -/
+def traceCalls : List (Nat × Ev) → List String
+  | [] => []
+  | (_, .input (.call _ x)) :: r => x :: traceCalls r
+  | _ :: r => traceCalls r
+
+theorem traceCalls_append (a b : List (Nat × Ev)) : traceCalls (a ++ b) = traceCalls a ++ traceCalls b := by
+  induction a with
+  | nil => rfl
+  | cons e a ih =>
+    obtain ⟨t, e⟩ := e
+    cases e with
+    | input l => cases l <;> simp [traceCalls, ih]
+    | _ => simp [traceCalls, ih]
+
+/-- every submission recorded by the model, and every submission a thread is about to make, carries a text some call was given -/
+def SubmInv (texts : List String) (s : St) : Prop :=
+  (∀ e ∈ s.submitted, e.2.2 ∈ texts) ∧ (∀ t x, upcOf s t = .submitting x → x ∈ texts)
+
+theorem SubmInv.mono {a b : List String} {s : St} (h : SubmInv a s) (hab : ∀ x ∈ a, x ∈ b) : SubmInv b s :=
+  ⟨fun e he => hab _ (h.1 e he), fun t x hx => hab _ (h.2 t x hx)⟩
+
+@[simp] theorem submitted_setUpc' (s : St) (t : Tid) (p : UPc) : (setUpc s t p).submitted = s.submitted := by
+  unfold setUpc; split <;> rfl
+
+/-- steps other than the start of a call keep the invariant -/
+theorem submInv_step (P : Params) (texts : List String) (s s' : St) (l : Label) (o : Option Obs) (hi : SubmInv texts s)
+    (hl : ∀ t x, l ≠ .call t x) (hs : step P s l = some (s', o)) : SubmInv texts s' := by
+  obtain ⟨h1, h2⟩ := hi
+  cases l <;> simp only [step] at hs
+  case call t x => exact absurd rfl (hl t x)
+  case s => l4_split_s hs <;> exact ⟨h1, h2⟩
+  case r => l4_split_r hs <;> exact ⟨h1, h2⟩
+  case u t =>
+    l4_split_u hs
+    all_goals
+      refine ⟨?_, ?_⟩
+      · intro e he
+        simp only [submitted_setUpc'] at he
+        first
+          | exact h1 e he
+          | (simp only [List.mem_append, List.mem_cons, List.not_mem_nil, or_false] at he
+             rcases he with he | he
+             · exact h1 e he
+             · subst he; exact h2 _ _ ‹_›)
+      · intro t' x hx
+        rw [upcOf_setUpc] at hx
+        split at hx
+        · simp at hx
+        · exact h2 t' x hx
+  case callClose t =>
+    (repeat' split at hs) <;> simp at hs <;> obtain ⟨rfl, rfl⟩ := hs <;>
+      (refine ⟨by intro e he; simp only [submitted_setUpc'] at he; exact h1 e he, ?_⟩
+       intro t' x hx
+       rw [upcOf_setUpc] at hx
+       split at hx
+       · simp at hx
+       · exact h2 t' x hx)
+  all_goals (l4_split_other hs <;> exact ⟨h1, h2⟩)
+
+theorem Expl.submInv {P : Params} {hidden : List String} {pre : List (Nat × Ev)} {s : St} (h : Expl P hidden pre s) :
+    SubmInv (traceCalls pre) s := by
+  induction h with
+  | init => exact ⟨by simp, by intro t x hx; simp [upcOf, lookup] at hx⟩
+  | @tau pre s s' l o _ hl hs _ ih =>
+    exact submInv_step P _ s s' l o ih (by intro t x e; subst e; simp [isThreadLabel] at hl) hs
+  | @input pre s s' l o _ hl hs ih =>
+    rw [traceCalls_append]
+    by_cases hc : ∃ t x, l = .call t x
+    · obtain ⟨t, x, rfl⟩ := hc
+      simp only [step] at hs
+      split at hs
+      · simp at hs; obtain ⟨rfl, rfl⟩ := hs
+        refine ⟨fun e he => ?_, fun t' y hy => ?_⟩
+        · simp only [submitted_setUpc'] at he
+          exact List.mem_append_left _ (ih.1 e he)
+        · rw [upcOf_setUpc] at hy
+          split at hy
+          · simp at hy; subst hy; simp [traceCalls]
+          · exact List.mem_append_left _ (ih.2 t' y hy)
+      · simp at hs
+    · have hc' : ∀ t x, l ≠ .call t x := fun t x e => hc ⟨t, x, e⟩
+      exact (submInv_step P _ s s' l o ih hc' hs).mono (fun x hx => List.mem_append_left _ hx)
+  | @output pre s s' l o _ hl hs _ ih =>
+    rw [traceCalls_append]
+    exact (submInv_step P _ s s' l _ ih (by intro t x e; subst e; simp [isThreadLabel] at hl) hs).mono
+      (fun x hx => List.mem_append_left _ hx)
+  | hiddenOutput _ _ ih => rw [traceCalls_append]; exact ih.mono (fun x hx => List.mem_append_left _ hx)
+  | snapshot _ _ ih => rw [traceCalls_append]; exact ih.mono (fun x hx => List.mem_append_left _ hx)
+  | stop _ ih => rw [traceCalls_append]; exact ih.mono (fun x hx => List.mem_append_left _ hx)
 
 end Ynca.L4
